@@ -17,12 +17,12 @@ import (
 
 // Emitter writes request lines (for the Lean driver) and implementation answers side by side.
 type Emitter struct {
-	in, out *bufio.Writer
-	fin, fo *os.File
-	N       int
-	Stats   map[string]int
-	Samples []string
-	seen    map[string]struct{}
+	in, out  *bufio.Writer
+	fin, fo  *os.File
+	N        int
+	Stats    map[string]int
+	Samples  []string
+	seen     map[string]struct{}
 	Distinct int
 }
 
